@@ -261,23 +261,26 @@ with render_tw (isf : string -> bool) (m : option style) (c : ctx) (l : wlist) (
   end.
 
 (* every value leaf outside function arguments has a non-empty inline text (only ValueWrapper("") rendered with an
-   empty secondary_quote_char, or a payload whose str() is empty, fail this).  Needed because the PostgreSQL
-   Array renderer inspects the joined text of its members. *)
-Fixpoint vals_ok (sqt : bool) (t : term) {struct t} : bool :=
+   empty secondary_quote_char, or a payload whose str() is empty, fail this; needed because the PostgreSQL Array
+   renderer inspects the joined text of its members) and satisfies [chk] *)
+Fixpoint vals_ok (chk : lit -> bool) (sqt : bool) (t : term) {struct t} : bool :=
   match t with
-  | TValS s _ => sqt || negb (String.eqb s "")
-  | TValRaw txt _ => negb (String.eqb txt "")
-  | TNeg t' | TBitAnd t' _ _ | TIsNull t' _ | TNotNull t' _ | TNot t' _ | TAll t' _ => vals_ok sqt t'
-  | TArith _ l r _ | TBasic _ l r _ | TCplx _ l r _ | TIn l r _ _ => vals_ok sqt l && vals_ok sqt r
-  | TBetween a b d _ => vals_ok sqt a && vals_ok sqt b && vals_ok sqt d
-  | TCase ws els _ => vals_ok_w sqt ws && match els with ONone => true | OSome t' => vals_ok sqt t' end
-  | TTuple vs _ | TArray vs _ => vals_ok_l sqt vs
+  | TValS s _ => (sqt || negb (String.eqb s "")) && chk (LStr s)
+  | TValI z _ => chk (LInt z)
+  | TValB b _ _ => chk (LBool b)
+  | TValNone _ => chk LNull
+  | TValRaw txt _ => negb (String.eqb txt "") && chk (LRaw txt)
+  | TNeg t' | TBitAnd t' _ _ | TIsNull t' _ | TNotNull t' _ | TNot t' _ | TAll t' _ => vals_ok chk sqt t'
+  | TArith _ l r _ | TBasic _ l r _ | TCplx _ l r _ | TIn l r _ _ => vals_ok chk sqt l && vals_ok chk sqt r
+  | TBetween a b d _ => vals_ok chk sqt a && vals_ok chk sqt b && vals_ok chk sqt d
+  | TCase ws els _ => vals_ok_w chk sqt ws && match els with ONone => true | OSome t' => vals_ok chk sqt t' end
+  | TTuple vs _ | TArray vs _ => vals_ok_l chk sqt vs
   | _ => true
   end
-with vals_ok_l (sqt : bool) (l : tlist) {struct l} : bool :=
-  match l with TNil => true | TCons t r => vals_ok sqt t && vals_ok_l sqt r end
-with vals_ok_w (sqt : bool) (l : wlist) {struct l} : bool :=
-  match l with WNil => true | WCons a b r => vals_ok sqt a && vals_ok sqt b && vals_ok_w sqt r end.
+with vals_ok_l (chk : lit -> bool) (sqt : bool) (l : tlist) {struct l} : bool :=
+  match l with TNil => true | TCons t r => vals_ok chk sqt t && vals_ok_l chk sqt r end
+with vals_ok_w (chk : lit -> bool) (sqt : bool) (l : wlist) {struct l} : bool :=
+  match l with WNil => true | WCons a b r => vals_ok chk sqt a && vals_ok chk sqt b && vals_ok_w chk sqt r end.
 
 (* ------------------------------------------------------------------------------------------------ *)
 (* reading a parameterised text back: substitution and comparison by value                            *)
@@ -336,7 +339,13 @@ Definition tok_exact (isf : string -> bool) (t : tok) : bool :=
 (* ------------------------------------------------------------------------------------------------ *)
 (* statements                                                                                         *)
 (* ------------------------------------------------------------------------------------------------ *)
-Inductive item := IText (s : string) | ITerm (c : ctx) (t : term).
+Inductive item :=
+| IText (s : string)
+| ITerm (c : ctx) (t : term)
+| IWrap (c : ctx) (t : term).   (* ValueWrapper(term): what QueryBuilder.set builds when the value is itself a Term *)
+
+Definition set_sq (c : ctx) (s : option string) : ctx :=
+  {| q := q c; sq := s; aq := aq c; askw := askw c; dia := dia c; wa := wa c; wn := wn c; subq := subq c; subc := subc c |}.
 
 Fixpoint render_items (isf : string -> bool) (m : option style) (l : list item) (st : pstate) : tres :=
   match l with
@@ -345,10 +354,27 @@ Fixpoint render_items (isf : string -> bool) (m : option style) (l : list item) 
   | ITerm c t :: r =>
       tbind (render_t isf m c t st) (fun a s1 =>
       tbind (render_items isf m r s1) (fun b s2 => ret (a ++ b) s2))
+  | IWrap c t :: r =>
+      match m with
+      | None =>
+          (* get_formatted_value(value: Term) = value.get_sql(all keyword arguments) *)
+          tbind (render_t isf None c t st) (fun a s1 =>
+          tbind (render_items isf m r s1) (fun b s2 => ret (a ++ b) s2))
+      | Some sty =>
+          (* not an int/float: the collector receives get_value_sql(quote_char=.., remaining kwargs), i.e. the SQL TEXT
+             of the wrapped term, rendered without collector and without secondary_quote_char (so its default) *)
+          match render_t isf None (set_sq c (Some "'")) t [] with
+          | Err e => Err e
+          | Ok (ts, _) =>
+              let ph := ph_text sty (List.length st) in
+              tbind (render_items isf m r (collect sty st (param_key sty ph) (VStr (flatten ts)))) (fun b s2 =>
+              ret (KAuto (List.length st) ph :: b) s2)
+          end
+      end
   end.
 
-Definition item_ok (i : item) : bool :=
-  match i with IText _ => true | ITerm c t => vals_ok (truthy_ostr (sq c)) t end.
+Definition item_ok (chk : lit -> bool) (i : item) : bool :=
+  match i with IText _ => true | ITerm c t => vals_ok chk (truthy_ostr (sq c)) t | IWrap _ _ => false end.
 
 (* a SELECT builder (generic Query / SQLLiteQuery): one FROM item, joins with ON, WHERE, GROUP BY, HAVING, ORDER BY,
    LIMIT/OFFSET; sub-queries in FROM, in a join, and as the container of IN *)
@@ -365,11 +391,15 @@ with wc :=
 | WAnd (a b : wc)                              (* ComplexCriterion(AND) of two non-complex members *)
 with owc := WNone | WSome (w : wc).
 
+(* QueryBuilder.set(field, value) stores wrapper_cls(value): a plain ValueWrapper leaf for a Python constant,
+   a ValueWrapper AROUND the term when the value is a Term *)
+Inductive setval := SVal (t : term) | SWrap (t : term).
+
 Inductive stmt :=
 | SSelect (s : sel)
 | SInsert (tbl : string) (cols : list string) (rows : list (list term))
 | SInsertSel (tbl : string) (cols : list string) (s : sel)
-| SUpdate (tbl : string) (sets : list (string * term)) (wh : owc)
+| SUpdate (tbl : string) (sets : list (string * setval)) (wh : owc)
 | SDelete (tbl : string) (wh : owc)
 | SSetOp (wrap : bool) (base : sel) (ops : list (string * sel)) (ord : list (term * option bool)) (lim off : option Z).
 
@@ -509,7 +539,8 @@ Definition elab_stmt (sqlite : bool) (s : stmt) : list item :=
         | ClUpdate => [IText ("UPDATE " ++ fq (q k) tbl)]
         | ClSet =>
             IText " SET " ::
-            sep_items "," (map (fun fv => [IText (fq (q k) (fst fv) ++ "="); ITerm k (snd fv)]) sets)
+            sep_items "," (map (fun fv => [IText (fq (q k) (fst fv) ++ "=");
+                                             match snd fv with SVal t => ITerm k t | SWrap t => IWrap k t end]) sets)
         | ClWhere => elab_owc " WHERE " (set_subq k true) wh
         | _ => [] end) update_order
   | SDelete tbl wh =>
